@@ -103,6 +103,24 @@ def run(rep, tier):
             got = "raises %s" % e
         rep.ob("R2", "xdis.magics.magicint2version", "magic=%d:version" % mgc, isinstance(got, tuple) and tuple(got[:2]) == want,
                expected=list(want), derived=got, where=None, msg="magic %d: registry says %d.%d, xdis's row %r parses to %r" % (mgc, want[0], want[1], m2v[mgc], got))
+    # int2magic of every table magic is the byte string the tables are keyed by (and what a file of that release starts with): the folder applies int2magic to each
+    # of the table's own keys; `versions` must map the result to the same release name as magicint2version
+    vers_tbl = M.get("versions")
+    nkeys = 0
+    if isinstance(vers_tbl, dict):
+        for mgc in sorted(m2v):
+            try:
+                hb = F.apply(f_i2m, [mgc], {})
+            except (PyExc, FoldError) as e:
+                hb = "raises %s" % e
+            okh = isinstance(hb, (bytes, bytearray)) and bytes(hb) in vers_tbl and vers_tbl[bytes(hb)] == m2v[mgc]
+            nkeys += 1
+            if not okh:
+                rep.ob("R1", "xdis.magics.int2magic", "magic=%d:header-bytes-are-the-table-key" % mgc, False, expected="a key of `versions` naming %r" % m2v[mgc],
+                       derived=repr(hb), msg="int2magic(%d) gives %r, which the magic tables do not list for %r: int2magic is not the inverse of magic2int on the header such files really carry" % (
+                           mgc, hb, m2v[mgc]))
+        rep.ob("R1", "xdis.magics.int2magic", "table-magics:header-bytes-are-the-table-keys", True, derived="%d table magics examined (failures are listed individually)" % nkeys)
+    rep.floor("table magics whose header bytes were compared with the table keys", nkeys, 200)
     # ---------------------------------------------------------------- R3
     f_go = fn(T, "xdis.disasm", "get_opcode")
     rep.analysed(f_go.qualname)
@@ -140,6 +158,10 @@ def run(rep, tier):
                 mod = F.apply(f_go, [version, pv], {})
                 ok = isinstance(mod, ModuleNS) and mod.name.startswith("xdis.opcodes.opcode_")
                 got = mod.name if ok else repr(mod)
+                if ok and tuple(mod.ns.get("version_tuple", ())[:2]) != tuple(version[:2]):
+                    # a table is found, but it is another version's: the file loads and is then decoded with the wrong opcodes
+                    ok = False
+                    got = "%s, the table of %s" % (mod.name, ".".join(str(x_) for x_ in mod.ns.get("version_tuple", ())[:2]))
             except (PyExc, FoldError) as e:
                 ok, got = False, "raises %s" % e
             rep.ob("R3", "xdis.disasm.get_opcode", "magic=%d:pypy=%s" % (mgc, pv), ok, expected="an opcode table", derived=got,
